@@ -7,8 +7,8 @@ From Coq Require Import List Arith Bool Lia.
 Import ListNotations.
 From GR Require Import Lifecycle LifecycleFacts LifecycleThms.
 
-Definition stop_wait (p : apc) : bool := match p with PStop2 | PStop3 | PStop4 => true | _ => false end.
-Definition rank (p : apc) : nat := match p with PStop2 => 3 | PStop3 => 2 | PStop4 => 1 | _ => 0 end.
+Definition stop_wait (p : apc) : bool := match p with PStop2 | PStop3 | PStop3r | PStop4 => true | _ => false end.
+Definition rank (p : apc) : nat := match p with PStop2 => 4 | PStop3 => 3 | PStop3r => 2 | PStop4 => 1 | _ => 0 end.
 Definition ccost (c : cthread) : nat := match ct_st c with CTracked => 2 | CRegistered => 1 | CDone => 0 end.
 Definition csum (l : list cthread) : nat := list_sum (map ccost l).
 Definition mu (s : sys) : nat := rank (pc s) + csum (conns s) + count loop_live (loops s).
@@ -36,6 +36,9 @@ Qed.
 
 Lemma csum_map_close l : csum (map close_conn l) = csum l.
 Proof. induction l as [|x l IH]; [reflexivity|]. cbn [map]. rewrite !csum_cons, IH. reflexivity. Qed.
+
+Lemma csum_map_close_reg reg l : csum (map (close_reg reg) l) = csum l.
+Proof. induction l as [|x l IH]; [reflexivity|]. cbn [map]. rewrite !csum_cons, IH. unfold ccost. rewrite close_reg_st. reflexivity. Qed.
 
 Lemma find_conn_some id l c : NoDup (map ct_id l) -> In c l -> ct_id c = id -> find_conn id l = Some c.
 Proof.
@@ -83,7 +86,9 @@ Proof.
   - cbn [lstep] in H. destruct (pc s) eqn:P; try discriminate. destruct (accept_wg s); [|discriminate].
     inversion H; subst s'. unfold mu. projs. rewrite P. cbn [rank]. lia.
   - cbn [lstep] in H. destruct (pc s) eqn:P; try discriminate.
-    inversion H; subst s'. unfold mu. projs. rewrite P, csum_map_close. cbn [rank]. lia.
+    inversion H; subst s'. unfold mu. projs. rewrite P, csum_map_close_reg. cbn [rank]. lia.
+  - cbn [lstep] in H. destruct (pc s) eqn:P; try discriminate.
+    inversion H; subst s'. unfold mu. projs. rewrite P, csum_map_close_reg. cbn [rank]. lia.
   - cbn [lstep] in H. destruct (pc s) eqn:P; try discriminate. destruct (conn_wg s); [|discriminate].
     inversion H; subst s'. unfold mu. projs. rewrite P. cbn [rank]. lia.
   - rewrite (no_accept_when_closed s lis I W) in H. discriminate.
@@ -127,6 +132,7 @@ Proof.
       destruct (find_loop (al_lis a) (loops s)) as [b|] eqn:F.
       * destruct (i_closed s I) as (O & _ & _); [unfold stopped_phase; rewrite P; auto|]. rewrite O. cbn [mem_nat existsb]. eauto.
       * exfalso. exact (find_loop_some _ _ a (i_lnodup s I) Hin eq_refl Hl F).
+  - exists LStopCloseReg. cbn [lstep]. rewrite P. eauto.
   - exists LStopCloseConns. cbn [lstep]. rewrite P. eauto.
   - (* PStop4: either the WaitGroup is zero, or some goroutine has not returned and its next step is enabled *)
     destruct (conn_wg s) as [|n] eqn:A.
@@ -152,8 +158,14 @@ Proof.
   - destruct (pc s); try discriminate; inversion H; subst s'; discriminate.
   - destruct (pc s); try discriminate; inversion H; subst s'; discriminate.
   - destruct (pc s); try discriminate; destruct (accept_wg s); try discriminate; inversion H; subst s'; discriminate.
+  - destruct (pc s); try discriminate; inversion H; subst s'; discriminate.
   - destruct (pc s); try discriminate. inversion H; subst s'. projs. intros c Hc.
-    apply in_map_iff in Hc. destruct Hc as (c0 & <- & _). reflexivity.
+    apply in_map_iff in Hc. destruct Hc as (c0 & <- & Hc0). unfold close_reg.
+    destruct (mem_nat (ct_id c0) (live s)) eqn:M; [reflexivity|].
+    (* not tracked any more: its goroutine has returned (i_live), so its socket is closed (i_done) *)
+    destruct (not_done c0) eqn:N.
+    + pose proof (i_live s I c0 Hc0 N) as L. apply mem_nat_in in L. congruence.
+    + apply (i_done s I c0 Hc0). unfold not_done in N. destruct (ct_st c0); try discriminate; reflexivity.
   - destruct (pc s); try discriminate; destruct (conn_wg s); try discriminate; inversion H; subst s'; discriminate.
   - destruct (find_loop lis (loops s)) as [a|] eqn:F; [|discriminate].
     destruct (find_loop_in _ _ _ F) as (Hin & _ & Hd).
@@ -264,10 +276,10 @@ Proof. intros P. cbn [lstep]. rewrite P. eexists. split; [reflexivity|reflexivit
 Example live_ex :
   let s := lrun (init true true) [LStartBegin; LStartOpen; LStartSpawnPlain; LStartSpawnTLS; LAcceptOk 0; LAcceptOk 1; LAcceptOk 0; LAdmit 2;
                                   LStopBegin; LStopCloseLis] in
-  stop_wait (pc s) = true /\ mu s = 10 /\
-  exists ls s', exec s ls = Some s' /\ pc s' = PStopped /\ length ls = 9.
+  stop_wait (pc s) = true /\ mu s = 11 /\
+  exists ls s', exec s ls = Some s' /\ pc s' = PStopped /\ length ls = 10.
 Proof.
   cbv zeta. split; [vm_compute; reflexivity|]. split; [vm_compute; reflexivity|].
-  exists [LAcceptFail 0; LAcceptFail 1; LStopWaitAccept; LStopCloseConns; LFinish 2; LHandshakeFail 3; LAdmit 4; LFinish 4; LStopWaitConns].
+  exists [LAcceptFail 0; LAcceptFail 1; LStopWaitAccept; LStopCloseReg; LStopCloseConns; LFinish 2; LHandshakeFail 3; LAdmit 4; LFinish 4; LStopWaitConns].
   vm_compute. eexists. split; [reflexivity|]. split; reflexivity.
 Qed.
